@@ -135,7 +135,7 @@ def check_c12(prop, tier, seed):
     t0 = time.time()
     wd = vlib.workdir("%s-%s" % (prop, tier))
     vlib.build_harness()
-    slices = ["frac", "vec1", "dist-quick"] if tier == "quick" else ["frac", "vec1", "vec2", "dist"]
+    slices = ["frac", "vec1", "vec2-quick", "dist-quick"] if tier == "quick" else ["frac", "vec1", "vec2", "dist"]
     states = trans = cases_total = recs_total = accepted = 0
     bad_all = []
     samples = []
